@@ -1,5 +1,7 @@
 (* C13 — The bundle is a function of its inputs, not of order or scheduling. *)
 From Slug Require Import Base.Str Bundle.Versions Bundle.Builder Bundle.BuilderProofs.
+From Slug Require Addr.Parse Bundle.Lookup Bundle.ManifestRT.
+From Coq Require Import Permutation.
 
 (* Two error-free builds over the same world whose Add calls mention the same
    set of items - in any order, with any repetitions, and therefore for every
@@ -34,3 +36,15 @@ Qed.
 
 Print Assumptions C13_order_independent.
 Print Assumptions C13_coalesce_iff_equal_content.
+
+(* The manifest's package section does not depend on the order in which the
+   builder's map of package directories is visited (Go map iteration order):
+   for tables whose packages print differently, any two visiting orders write
+   the same list of records. *)
+Theorem C13_manifest_packages_order_independent :
+  forall (dirs dirs' : list (Parse.rpkg * str)) meta,
+    NoDup (map (fun pd => Parse.rpkg_string (fst pd)) dirs) -> Permutation dirs dirs' ->
+    ManifestRT.write_packages dirs meta = ManifestRT.write_packages dirs' meta.
+Proof. exact ManifestRT.write_order_irrelevant. Qed.
+
+Print Assumptions C13_manifest_packages_order_independent.
